@@ -7,7 +7,8 @@ worker layout, rule) are cubes; numbers (work, skills, costs, sizes, absence ste
 import itertools
 
 ASSUMPTIONS = [
-    "unique IDs; task names distinct (skills are keyed by task name); unit_time = 1; error_tol default; task_performed_mode = multi-workers",
+    "IDs unique within each kind of object (the idclash / bare-ID members reuse the same ID text across kinds); task names distinct (skills are keyed by task name); "
+    "unit_time = 1 except in the members named unit2/... (C04, C07); error_tol default; task_performed_mode = multi-workers",
     "deterministic skills (standard deviation 0)",
     "numbers are small integers or dyadic rationals k/2 (exact in both IEEE double and the solver's real arithmetic)",
     "a task with need_facility has a target component and at least one allocated workplace",
@@ -18,13 +19,13 @@ BOUNDS_TEXT = {
 }
 OUTSIDE = [
     "sizes/amounts/horizons beyond the bounds", "non-dyadic skills and floating-point accumulation", "random skills (sd != 0)",
-    "WORKING_ADDITIONALLY (never set by base code)", "unit_time != 1",
+    "WORKING_ADDITIONALLY (never set by base code)", "unit_time > 2, and unit_time = 2 outside the unit2/... members",
 ]
 
 REQUIRED = {
     "C02": ["finish", "multi-worker", "must-finish", "absent-worker-on-working-task"],
     "C03": ["release-on-finish", "worker-holds"],
-    "C04": ["allocation", "pair", "solo-alone"],
+    "C04": ["allocation", "pair", "solo-alone", "shared-id-text", "unit-time-2"],
     "C05": ["success", "failure", "feasible-with-enough-time", "unserved-task"],
     "C06": ["free-worker-and-active-task", "idle-but-task-cannot-accept", "must-finish"],
     "C07": ["charged", "absence-step"],
@@ -271,6 +272,34 @@ def p_facility(thorough=False, H=8, timeout=120):
                         obs.append({"name": "fac/%s/fsk=%s/solof=%d/fixf=%s/mixed=%d" % (layout, fsk, {False: 0, True: 1, "worker": 2}[solo_f], fixf, mixed), "harness": "sim",
                                     "cube": {"spec": spec}, "params": params, "timeout": timeout})
     return obs
+
+
+def p_idclash(thorough=False, H=8, timeout=150):
+    """Objects of different kinds carry the same ID text ("0", "1", ... per kind): team 0 / workplace 0 / worker 0 / facility 0 / task 0.
+    Team 0 is assigned to task 0 only, workplace 0 to both tasks; team 1 to both tasks, workplace 1 to task 0 only."""
+    obs = []
+    for nf1 in (False, True):
+        tasks = [{"w": "$w0", "nf": True, "comp": 0}, {"w": "$w1", "nf": nf1, "comp": 1 if nf1 else None}]
+        wps = [{"targets": [0, 1], "cap": 2, "facs": [{"skills": {"0": 1, "1": 1}}, {"skills": {"0": "$f10", "1": 1}}]},
+               {"targets": [0], "cap": 1, "facs": [{"skills": {"0": 1, "1": 1}}]}]
+        ws0 = [{"skills": {"0": "$s00", "1": 1}, "fskills": {"0": 1, "1": 1, "2": 1}}]
+        ws1 = [{"skills": {"0": 1, "1": "$s11"}, "fskills": {"0": 1, "1": 1, "2": 1}, "abs": ["$a1"]}]
+        spec = {"tasks": tasks, "edges": [], "teams": [_team(ws0, [0]), _team(ws1, [0, 1])], "wps": wps, "comps": [{"size": 1}, {"size": 1}],
+                "run": {"max_time": H}, "idstyle": "bare"}
+        obs.append({"name": "idclash/nf1=%d" % nf1, "harness": "sim", "cube": {"spec": spec},
+                    "params": [["w0", 1, 3 if thorough else 2], ["w1", 1, 3 if thorough else 2], ["s00", 0, 2], ["s11", 0, 2], ["f10", 0, 1], ["a1", -1, 2]], "timeout": timeout})
+    return obs
+
+
+def with_unit_time(obs, unit, H, widen=()):
+    """The same members simulated with unit_time = `unit` (the clock advances by `unit` per step; absence lists hold times)."""
+    out = []
+    for ob in obs:
+        spec = dict(ob["cube"]["spec"])
+        spec["run"] = dict(spec["run"], unit_time=unit, max_time=H)
+        pr = [[n, lo, hi * unit] if (n in widen and hi > 0) else [n, lo, hi] for n, lo, hi in ob["params"]]
+        out.append(dict(ob, name="unit%d/%s" % (unit, ob["name"]), cube=dict(ob["cube"], spec=spec), params=pr))
+    return out
 
 
 def p_resource_rules(thorough=False, H=8, timeout=150):
@@ -542,6 +571,13 @@ def _obligations_for(prop, tier):
             obs += p_nested_release(thorough, timeout=900 if thorough else 150)
         if prop == "C06":
             obs += p_absence(wmax=3 if thorough else 2, H=12 if thorough else 8, timeout=900 if thorough else 200, kinds=(0, 2) if not thorough else (0, 1, 2, 3))
+        if prop == "C04":
+            obs += p_idclash(thorough, H=12 if thorough else 8, timeout=900 if thorough else 150)
+            cu = [ob for ob in p_contention(thorough, H=8, timeout=900 if thorough else 150)
+                  if "/rule=0/" in ob["name"] and "fix=None" in ob["name"] and "solo=None" in ob["name"] and ("/indep/" in ob["name"] or thorough)]
+            obs += with_unit_time(cu, 2, 24 if thorough else 16, widen=("a0", "a0b", "a2"))
+            fu = [ob for ob in p_facility(thorough, H=8, timeout=900 if thorough else 150) if "fixf=None" in ob["name"] and "solof=0" in ob["name"] and "fsk=all" in ob["name"]]
+            obs += with_unit_time(fu, 2, 24 if thorough else 16, widen=("a1", "fa0"))
         if prop in ("C03", "C04", "C06"):
             obs += p_product("F2", thorough, H=12 if thorough else 8, timeout=900 if thorough else 150, targets="split")
             obs += p_resource_rules(thorough, H=12 if thorough else 8, timeout=900 if thorough else 150)
